@@ -503,7 +503,12 @@ func verifyResultLog(vc *views.ViewContext[views.ResultData], exp expResult) str
 	})
 }
 
-type expProgress struct{ S, F, D uint64 }
+type expProgress struct {
+	S, F, D uint64
+	// NoSuccessInPeriod: the line is rendered from a period in which no iteration succeeded (only set
+	// where the period is known): whatever the rounding, the per-second figure of such a period is 0
+	NoSuccessInPeriod bool
+}
 
 // verifyProgress checks one progress line in both forms.
 func verifyProgress(vc *views.ViewContext[views.ProgressData], exp expProgress) string {
@@ -532,6 +537,9 @@ func verifyProgress(vc *views.ViewContext[views.ProgressData], exp expProgress) 
 			}
 		} else if got, ok := parseU(m[3]); !ok || got != exp.D {
 			return fmt.Sprintf("progress line says %s dropped, the result has %d: %q", m[3], exp.D, plain)
+		}
+		if exp.NoSuccessInPeriod && m[5] != "0" {
+			return fmt.Sprintf("no iteration succeeded in the period the line stands for, yet it shows %s/s: %q", m[5], plain)
 		}
 		c := capture(vc.Log)
 		if c.records != 1 {
@@ -786,7 +794,7 @@ func TestProp_Progress(t *testing.T) {
 		c := genProgressCase(rt)
 		nt := nontrivialRule(c.S, c.F, c.D, c.S+c.F+c.D, c.Duration) || c.Period == 0
 		stats.Case("progress", fmt.Sprintf("%+v", c), nt, c.classes(), func() any { return c })
-		if msg := verifyProgress(vw.Progress(c.data()), expProgress{c.S, c.F, c.D}); msg != "" {
+		if msg := verifyProgress(vw.Progress(c.data()), expProgress{S: c.S, F: c.F, D: c.D}); msg != "" {
 			rt.Fatalf("VERIF-VIOLATION C19: %s\ninput: %+v", msg, c)
 		}
 	})
@@ -864,7 +872,7 @@ func judgePipe(c pipeCase) string {
 				tot[i] += p[i]
 			}
 			res.SnapshotProgress(c.Period)
-			if msg := verifyProgress(res.Progress(), expProgress{tot[0], tot[1], tot[2]}); msg != "" {
+			if msg := verifyProgress(res.Progress(), expProgress{S: tot[0], F: tot[1], D: tot[2], NoSuccessInPeriod: p[0] == 0}); msg != "" {
 				return fmt.Sprintf("progress line %d: %s", phase+1, msg)
 			}
 		}
@@ -1093,7 +1101,7 @@ func TestEnum_SmallCountsText(t *testing.T) {
 			c := progressCase{S: s, F: fl, D: d, Duration: time.Minute, Period: period,
 				Recent: progress.IterationDurationsSnapshot{Average: time.Microsecond, Min: time.Microsecond, Max: time.Microsecond, Count: s / 2}}
 			stats.Case("enum-text", fmt.Sprintf("%+v", c), nontrivialRule(s, fl, d, s+fl+d, c.Duration) || period == 0, nil, func() any { return c })
-			if msg := verifyProgress(vw.Progress(c.data()), expProgress{s, fl, d}); msg != "" {
+			if msg := verifyProgress(vw.Progress(c.data()), expProgress{S: s, F: fl, D: d}); msg != "" {
 				t.Fatalf("VERIF-VIOLATION C19: %s\ninput: %+v", msg, c)
 			}
 		}
@@ -1174,7 +1182,7 @@ func TestRegress(t *testing.T) {
 		{S: maxCount, F: maxCount, D: maxCount, Duration: hundredHours, Period: 1, Recent: progress.IterationDurationsSnapshot{Count: maxCount}},
 		{S: 99999, F: 100000, D: 1, Duration: 499_999_999, Period: 500 * time.Millisecond},
 	} {
-		if msg := verifyProgress(vw.Progress(c.data()), expProgress{c.S, c.F, c.D}); msg != "" {
+		if msg := verifyProgress(vw.Progress(c.data()), expProgress{S: c.S, F: c.F, D: c.D}); msg != "" {
 			t.Errorf("VERIF-VIOLATION C19: %s\ninput: %+v", msg, c)
 		}
 	}
